@@ -240,7 +240,7 @@ def check_c(case):
     text0 = (SHORT + LONGER)[i]
     b = text0.encode("utf-8")
     out = Out(cls="parser/%d-pieces" % len(comp))
-    parser, target = J.Transport.getparser()
+    parser, target = J.Transport(Config()).getparser()  # through an instance: works for static and instance methods alike
     try:
         for piece in gen.cut(b, comp):
             parser.feed(piece)
@@ -339,6 +339,68 @@ def check_d(case):
     if got != want_text:
         out.bad("C17/response-reassembly-depends-on-chunking", "%r: the text handed to the client differs from the decoding of the whole (lengths %s vs %d)"
                 % (case, len(got) if got is not None else None, len(want_text)))
+    return out
+
+
+# (d2) a response that follows a failed exchange on the same proxy must not contain anything of the failed one
+
+
+def cases_d2(tier):
+    for fault in ("truncated-length", "truncated-close-gzip", "reset-mid-body", "non-json-big", "status-500-big"):
+        for ch in ("é", "\U0001F600"):
+            for size in (1030, 2100, 3000):
+                for scheme in ("tcp", "unix"):
+                    yield (fault, ch, size, scheme)
+
+
+def check_d2(case):
+    fault, ch, size, scheme = case
+    out = Out(cls="response-after-fault/" + fault)
+    import base64
+    import hashlib
+    seed, blocks = ch.encode("utf-8"), []
+    while sum(map(len, blocks)) < size + 1500:
+        seed = hashlib.sha256(seed).digest()
+        blocks.append(base64.b64encode(seed))
+    junk = (b'"' + ch.encode("utf-8") * 8 + b"".join(blocks))  # hard to compress: a truncated gzip stream fails after several read blocks
+    state = {"n": 0}
+    good = ('{"jsonrpc":"2.0","id":2,"result":"%s"}' % (ch * 40)).encode("utf-8")
+
+    def responder(peer, req, parsed):
+        state["n"] += 1
+        if state["n"] == 1:
+            if fault == "truncated-length":
+                return env.http_resp(200, "OK", junk + b"x" * 64)[:-64], True
+            if fault == "truncated-close-gzip":
+                return env.http_resp(200, "OK", env.gzip_bytes(junk)[:-20], extra=["Content-Encoding: gzip"], length=False, ka=False), True
+            if fault == "reset-mid-body":
+                return env.http_resp(200, "OK", junk + b"x" * 4000)[:-4000], "reset"
+            if fault == "non-json-big":
+                return env.http_resp(200, "OK", b"<html>" + junk + b"</html>"), False
+            return env.http_resp(500, "Internal Server Error", junk), False
+        return env.http_resp(200, "OK", good), False
+
+    peer = env.ScriptPeer(responder=responder)
+    hist = jsonrpclib.history.History()
+    url = "http://h.test/rpc" if scheme == "tcp" else "unix+http://./s.sock"
+    with env.client_net(peer):
+        proxy = jsonrpclib.ServerProxy(url, history=hist)
+        try:
+            proxy.first("x")
+            first = "returned"
+        except Exception as ex:
+            first = type(ex).__name__
+        try:
+            r = proxy.second("y")
+        except Exception as ex:
+            return out.bad("C17/response-after-fault/second-call-raises-%s" % type(ex).__name__,
+                           "%r: after a first exchange that ended with %s, the healthy second call raised %r" % (case, first, ex))
+    if r != ch * 40:
+        out.bad("C17/response-after-fault/result-differs", "%r: second call returned %r" % (case, r[:60] if isinstance(r, str) else r))
+    if not hist.responses or hist.responses[-1] != good.decode("utf-8"):
+        got = hist.responses[-1] if hist.responses else None
+        out.bad("C17/response-contains-bytes-of-an-earlier-exchange",
+                "%r: the text of the second response has %s characters, the body sent has %d" % (case, len(got) if got is not None else None, len(good.decode("utf-8"))))
     return out
 
 
@@ -511,6 +573,7 @@ LEGS = {
     "request-target": leg("request-target", cases_b, check_b),
     "parser-compositions": leg("parser-compositions", cases_c, check_c),
     "response-chunking": leg("response-chunking", cases_d, check_d),
+    "response-after-fault": leg("response-after-fault", cases_d2, check_d2),
     "server-read": leg("server-read", cases_e, check_e),
     "reply-framing": leg("reply-framing", cases_f, check_f),
 }
@@ -524,7 +587,8 @@ META = {
     "request-target: 4 schemes x 3 authorities x 15 paths x 12 queries through a recording transport, http and unix+http through the in-memory network, 13 "
     "unsupported schemes; parser-compositions: all 2^(n-1) compositions of 12 bodies of <=14 bytes; response-chunking: body sizes {1022..1026, 2047..2049, "
     "4099} x a 2-/3-/4-byte character starting at every offset that makes it touch a multiple of 1024 x identity/gzip x Content-Length/close-delimited x 4 "
-    "delivery patterns; server-read: all compositions (<=2 cuts for longer bodies) of 6 bodies as short reads, plus a 10 MiB+1 body whose last character "
+    "delivery patterns; response-after-fault: a healthy response following a truncated / non-JSON / non-200 response larger than the read size on the same "
+    "proxy; server-read: all compositions (<=2 cuts for longer bodies) of 6 bodies as short reads, plus a 10 MiB+1 body whose last character "
     "straddles the read chunk; reply-framing: 7 results x 2 content types x ASCII-escaping/raw UTF-8 backend x {HTTP result, error, notification, CGI result, "
     "CGI error}; every case non-trivial",
     "bounds": {"quick": {"composition_bytes": 14, "cuts_beyond": 2}, "thorough": {"composition_bytes": 17, "cuts_beyond": 2}},
@@ -538,6 +602,6 @@ META = {
 
 def replay(case):
     c = eval(case["case"], {"__builtins__": {}}, {})
-    fn = {"request-framing": check_a, "request-sequence": check_a2, "request-target": check_b, "parser-compositions": check_c, "response-chunking": check_d,
+    fn = {"response-after-fault": check_d2, "request-framing": check_a, "request-sequence": check_a2, "request-target": check_b, "parser-compositions": check_c, "response-chunking": check_d,
           "server-read": check_e, "reply-framing": check_f}[case["leg"]]
     return fn(c).viols
